@@ -838,6 +838,12 @@ class YAMLPath:
             # type, assume it is a KEY.
             if segment_type is None:
                 segment_type = PathSegmentTypes.KEY
+            elif segment_type not in (
+                PathSegmentTypes.KEY, PathSegmentTypes.ANCHOR
+            ):
+                raise YAMLPathException(
+                    "YAML Path ends within an unterminated [] expression",
+                    yaml_path)
             path_segments.append(self._expand_splats(
                 yaml_path, segment_id, segment_type))
 
